@@ -462,7 +462,90 @@ def shard_bfs(args):
     return acc
 
 
+BIG_WRITES = [2 ** 53 + 3, 2 ** 60 + 7, -(2 ** 53) - 3, 10 ** 30 + 1]
+FLICKER_SUPPLIES = [(0, 10), (10, 0), (3, 4.5), (0, 3)]
+
+
+def check_special(params, case):
+    """One write on a fresh Standardiser with (a) an int beyond 2**53 - floor to a granule
+    and the clamps are exact for ints of any size - or (b) a target whose supply changes
+    between two reads inside the write: what is forwarded must respect the window of one of
+    the two supplies it was told"""
+    from cobald.decorator.standardiser import Standardiser
+
+    if case[0] == "big":
+        value = case[1]
+        pool = new_pool(0)
+        std = Standardiser(pool, **params)
+        std.demand = value
+        want, readback = reference(params, 0, value)
+        if want is not None and pool.demand != want:
+            return ("big-int:forwarded-differs-from-reference",
+                    "%r: wrote %r, the target got %r, floor to a granule and the clamps give "
+                    "%r" % (params, value, pool.demand, want))
+        got = std.demand
+        if got != readback:
+            return ("big-int:readback-differs",
+                    "%r: wrote %r, read back %r, expected %r" % (params, value, got, readback))
+        return None
+    _, value, first, second = case
+    pool_class = make_pool_class()
+    reads = []
+
+    class Flicker(pool_class):
+        @property
+        def supply(self):
+            reads.append(len(reads))
+            return first if len(reads) == 1 else second
+
+        @supply.setter
+        def supply(self, value):
+            pass
+
+    pool = Flicker(0, first, UTILISATION, ALLOCATION)
+    std = Standardiser(pool, **params)
+    del reads[:]
+    std.demand = value
+    allowed = [reference(params, supply, value)[0] for supply in (first, second)]
+    if None in allowed:
+        return None
+    if len(reads) and pool.demand not in allowed:
+        return ("supply-read-twice-in-one-write",
+                "%r: the target reported supply %r, then %r during one write of %r; it got "
+                "%r, which is right for neither (%r)" % (params, first, second, value,
+                                                         pool.demand, allowed))
+    return None
+
+
+def shard_special(args):
+    _, params, tier = args
+    acc = Acc()
+    if check_constructor(params) or documented_rejection(params):
+        return acc
+    cases = []
+    if params["granularity"] == int(params["granularity"]):
+        cases += [("big", value) for value in BIG_WRITES]
+    cases += [("flicker", value, first, second)
+              for value in ALPHABET[tier]["writes"] for first, second in FLICKER_SUPPLIES]
+    for case in cases:
+        try:
+            problem = check_special(params, case)
+        except Exception as err:  # noqa: B902
+            problem = ("special-raised-%s" % type(err).__name__,
+                       "%r %r: %s: %s" % (params, case, type(err).__name__, err))
+        acc.case(nontrivial_key=repr((params, case)))
+        acc.transitions += 1
+        acc.outcome((case[0], problem is None))
+        if problem:
+            acc.violation(problem[0], problem[1],
+                          {"kind": "special", "params": params, "case": list(case)},
+                          size=(1, unusual(params)))
+    return acc
+
+
 def shard(args):
+    if args[0] == "special":
+        return shard_special(args)
     return (shard_constructor if args[0] == "constructor" else shard_bfs)(args)
 
 
@@ -475,6 +558,7 @@ def run(ctx):
     shards = [("constructor",)]
     for values in itertools.product(*(grid[name] for name in PARAMETERS)):
         shards.append(("bfs", dict(zip(PARAMETERS, values)), depth, ctx.tier))
+        shards.append(("special", dict(zip(PARAMETERS, values)), ctx.tier))
     ctx.acc = Acc()
     ctx.pmap(shard, shards)
     ctx.acc.settle()  # per key, the shortest history on the fewest non-default parameters
@@ -511,6 +595,10 @@ def run(ctx):
         "target's demand may differ between the two ways although the reference is met; "
         "after an outside write only 'less than one granule away from the target's "
         "demand' is required of a read",
+        "single writes on a fresh object with ints beyond 2**53 (%r; int granularities only) "
+        "against the exact reference; and with a target whose supply changes between two "
+        "reads inside one write (%r): the forwarded demand must be right for one of the two"
+        % (BIG_WRITES, FLICKER_SUPPLIES),
         "a rejected constructor call may raise any Exception; passing through means equal "
         "value and type",
         "a state in which the property is already broken is reported and not explored "
@@ -526,6 +614,9 @@ def decode(value):
 
 def replay(data):
     params = {name: decode(value) for name, value in data["params"].items()}
+    if data["kind"] == "special":
+        problem = check_special(params, tuple(data["case"]))
+        return problem and "%s: %s" % problem
     if data["kind"] == "constructor":
         problem = check_constructor(params)
         return problem and problem[1]
